@@ -695,6 +695,16 @@ def _r7(run, mods):
                     if isinstance(c, ast.Call) and dotted(c.func) == 'open' and len(c.args) > 1 and isinstance(c.args[1], ast.Constant) \
                             and str(c.args[1].value).startswith('w'):
                         run.subject('C06-R7')
+                        # fh.write(text) with the text serialised before the file was opened is json.dump of a finished object, with the
+                        # encoder run before the truncation
+                        pre = {t.id for st_ in ast.walk(fn) if isinstance(st_, ast.Assign) and st_.lineno < w.lineno and isinstance(st_.value, ast.Call)
+                               and dotted(st_.value.func) == 'json.dumps' for t in st_.targets if isinstance(t, ast.Name)}
+                        fh_ = item.optional_vars.id if isinstance(item.optional_vars, ast.Name) else None
+                        if fh_ and len(w.body) == 1 and isinstance(w.body[0], ast.Expr) and isinstance(w.body[0].value, ast.Call) \
+                                and dotted(w.body[0].value.func) == fh_ + '.write' and len(w.body[0].value.args) == 1 \
+                                and isinstance(w.body[0].value.args[0], ast.Name) and w.body[0].value.args[0].id in pre:
+                            run.ok('C06-R7', '%s.%s write block' % (mname, fname), norm(w.body[0])[:60], sample=False)
+                            continue
                         body_ok = all(isinstance(s, ast.Expr) and isinstance(s.value, ast.Call) and dotted(s.value.func) == 'json.dump' for s in w.body)
                         # what is dumped is a finished object: building or converting it inside the block can still raise after the truncation
                         plain = all(isinstance(s.value.args[0], ast.Name) or (isinstance(s.value.args[0], ast.Call) and isinstance(s.value.args[0].func, ast.Attribute)
